@@ -90,7 +90,7 @@ CHECKS = {
                   "writes exactly the body of a DATA message; and for EVERY reachable state of a node that does not allow plain (induction over arbitrary "
                   "event sequences, invariant NE of every node step): no unencrypted message leaves it, its node information never travels unsealed in a "
                   "handshake message, no peer connection is unencrypted (SealedWireProofs.v). PARTIAL: absence of cleartext in real cipher output is checked on the real "
-                  "datagrams by the correspondence run (all ciphers, every flip/truncation, reflection, 3-node cross-injection).",
+                  "datagrams by the correspondence run (all ciphers, every flip/truncation, reflection, 3-node cross-injection, re-handshake superseding a connection).",
              technique="Coq proof over an ideal-AEAD model of CryptoCore/PeerCrypto + executed correspondence with the real ciphers", ref="5 (C02)"),
  "C04": dict(text="Theorem C04_no_reuse (Properties/C04.v): for EVERY history (induction, any length below 2^95-2^48) of seals, opens, ticks and "
                   "rotations to fresh keys on a CryptoCore as CryptoCore::new creates it, no (key, nonce) pair is used twice and every nonce lies in "
@@ -116,7 +116,7 @@ CHECKS = {
                   "step; over WHOLE RUNS (induction over arbitrary event sequences, invariant QP of every node step): while everything that arrived "
                   "was well-formed (unverifiable bytes and verbatim replays of honest messages are) no datagram from any source and no housekeeping second "
                   "panics; decrypt, Ethernet and IP dissection have no panic result for any input. Tied to the code by every length 0..80 x first "
-                  "byte x receiver state, bit flips at every byte position of captured handshake datagrams, truncations, replays of other "
+                  "byte x receiver state, bit flips at every byte position and boundary values in every length field of captured handshake datagrams, truncations, replays of other "
                   "exchanges' handshake datagrams into pending handshakes (twice each), forged high-counter datagrams, each followed by payload "
                   "probes on the established connection; run on the real node (catch_unwind, state-dump equality) and the model.",
              technique="Coq proof (case analysis, invariant preservation, induction over datagram sequences) + executed correspondence with state-dump and probe oracles", ref="5 (C08)"),
